@@ -83,3 +83,38 @@ Theorem ComparePath_src_eq :
   forall a b, option_map (fun z => BinInt.Z.compare z BinNums.Z0) (SrcFns.ComparePath a b) = Some (compare_path a b).
 Proof. exact ComparePathEq.ComparePath_src_eq. Qed.
 Print Assumptions ComparePath_src_eq.
+
+(* ---- the validator itself (tools/go2coq): the method HandleChange of Validator, translated from validator.go on
+        this run into a state transformer on the generated records (parentDirs = list of parent, bottom first;
+        sort.Search = Go's binary search with the func literal as predicate; ComparePath through its own
+        translation).  abs_state reads a Go state as the model's stack (top first; the nil slice as the initial
+        stack), vinv is the representation invariant (directories strictly descending from the top under
+        compare_path, bottom directory ""), item_of packs the arguments as the model's item.
+        One step equals the model's vstep on every state satisfying vinv; folded over a sequence from the zero
+        Validator it equals run_validator (every reachable state satisfies vinv), so the main theorem above
+        holds of the translated code ---- *)
+From FS Require Src.Prims Proofs.Src.ValidatorHandleChangeEq.
+Theorem HandleChange_src_eq : forall v kind p fi,
+  ValidatorHandleChangeEq.vinv (ValidatorHandleChangeEq.abs_state v) ->
+  match SrcFns.Validator_HandleChange v kind p fi None with
+  | None => False
+  | Some (v', e) =>
+    match vstep (ValidatorHandleChangeEq.abs_state v) (ValidatorHandleChangeEq.item_of kind p fi) with
+    | Some stk' => e = None /\ ValidatorHandleChangeEq.abs_state v' = stk'
+    | None => e <> None
+    end
+  end.
+Proof. exact ValidatorHandleChangeEq.HandleChange_src_eq. Qed.
+Theorem HandleChange_err_passthrough : forall v kind p fi m,
+  SrcFns.Validator_HandleChange v kind p fi (Some m) = Some (v, Some m).
+Proof. exact ValidatorHandleChangeEq.HandleChange_err_passthrough. Qed.
+Theorem run_go_is_run_validator : forall its,
+  ValidatorHandleChangeEq.run_go SrcFns.Validator_zero its 0 = Some (run_validator its).
+Proof. exact ValidatorHandleChangeEq.run_go_is_run_validator. Qed.
+Theorem translated_validator_accepts_iff_spec : forall its,
+  ValidatorHandleChangeEq.run_go SrcFns.Validator_zero its 0 = Some (spec_first_bad its).
+Proof. exact ValidatorHandleChangeEq.translated_validator_accepts_iff_spec. Qed.
+Print Assumptions HandleChange_src_eq.
+Print Assumptions HandleChange_err_passthrough.
+Print Assumptions run_go_is_run_validator.
+Print Assumptions translated_validator_accepts_iff_spec.
